@@ -23,6 +23,8 @@ def tokens_of_atoms(atoms):
         for s in a.steps:
             if isinstance(s, tuple) and not s[0].startswith(STD):
                 out.add("f:" + s[2])
+            elif isinstance(s, tuple) and s[0] == "(closure)":
+                out.add("u:" + s[2])
         if a.kind == "call":
             out.add("c:" + a.key[0].rsplit("::", 1)[-1])
         elif a.kind == "param":
